@@ -4,6 +4,7 @@ import (
 	_ "embed"
 	"fmt"
 	"go/ast"
+	"golang.org/x/tools/go/packages"
 	"strings"
 
 	"golang.org/x/tools/go/ssa"
@@ -258,17 +259,28 @@ func upgradeByInlining(c *Ctx, spec *propSpec) {
 // callersOfNewHelpers: names of the functions (outside the new helpers themselves) that contain a static call of a
 // new helper, in their body or in one of their closures.
 func callersOfNewHelpers(P *Program) map[string]bool {
-	helpers := newHelpers(P, baselineFuncs())
+	// what view 1 walks through: any function of the caller's package that is not in the baseline and does not recurse
+	// among new functions - exported or not (being exported matters for the helper's own obligations, not for what a
+	// call of it does)
+	baseline := baselineFuncs()
 	out := map[string]bool{}
-	if len(helpers) == 0 {
+	if len(baseline) == 0 || P.ModPath != "gopkg.in/typ.v4" {
 		return out
 	}
+	an := NewAnalysis(P)
 	isHelper := map[*ssa.Function]bool{}
-	for fi := range helpers {
-		isHelper[fi.SSA] = true
+	pkgOf := map[*ssa.Function]*packages.Package{}
+	for _, fi := range P.Funcs {
+		if !baseline[fi.Name] && !an.isRecursiveAmongNew(fi.SSA) {
+			isHelper[fi.SSA] = true
+			pkgOf[fi.SSA] = fi.Pkg
+		}
+	}
+	if len(isHelper) == 0 {
+		return out
 	}
 	for _, g := range P.Funcs {
-		if helpers[g] {
+		if isHelper[g.SSA] {
 			continue
 		}
 		for _, fn := range append([]*ssa.Function{g.SSA}, g.Closures...) {
@@ -285,7 +297,7 @@ func callersOfNewHelpers(P *Program) map[string]bool {
 					if sc.Origin() != nil {
 						sc = sc.Origin()
 					}
-					if isHelper[sc] {
+					if isHelper[sc] && pkgOf[sc] == g.Pkg {
 						out[g.Name] = true
 					}
 				}
